@@ -734,6 +734,8 @@ API_NOTES = {
              'load': 'MeshDG.load / save raise NotImplementedError by design',
              'save': 'MeshDG.load / save raise NotImplementedError by design'}
 
+API_NOTES.update({n: 'mesh surgery / selectors / constructors: exercised by the check of property C18' for n in ['__add__', '__matmul__', '__rmatmul__', 'copy', 'elements_satisfying', 'facets_around', 'facets_satisfying', 'init_refdom', 'mirrored', 'morphed', 'normalize_facets', 'refined', 'remove_elements', 'remove_unused_nodes', 'remove_duplicate_nodes', 'restrict', 'scaled', 'translated', 'trace', 'with_defaults', 'oriented', 'orientation', 'to_meshtri', 'to_meshtet', '__mul__', 'init_circle', 'init_lshaped', 'init_sqsymmetric', 'init_symmetric', 'init_ball', '__call__', 'normalize_elements']})
+
 
 def replay(ctx, data):
     """re-run one recorded failing input on the implementation"""
